@@ -51,22 +51,22 @@ def r1(ctx: Context) -> None:
     for cname in LONG_LIVED:
         c = repo.cls(cname)
         for m in c.methods.values():
-            # lazily initialised slot: if self._x is None: self._x = <expr>
-            for n in walk_no_nested(m.node):
-                if isinstance(n, ast.If) and isinstance(n.test, ast.Compare) and isinstance(n.test.ops[0], ast.Is) and isinstance(n.test.left, ast.Attribute) and isinstance(n.test.left.value, ast.Name) and n.test.left.value.id == "self":
-                    slot = n.test.left.attr
-                    for a in n.body:
-                        if isinstance(a, ast.Assign) and any(isinstance(t, ast.Attribute) and t.attr == slot for t in a.targets):
+            # any assignment self.<slot> = <value derived from the executing invocation> on a long-lived object
+            for a in walk_no_nested(m.node):
+                if isinstance(a, (ast.Assign, ast.AnnAssign)) and a.value is not None:
+                    tgts = a.targets if isinstance(a, ast.Assign) else [a.target]
+                    for t in tgts:
+                        if isinstance(t, ast.Attribute) and isinstance(t.value, ast.Name) and t.value.id == "self":
+                            slot = t.attr
                             n_slots += 1
                             why = context_dependent(m, a.value, repo)
-                            # one level of data flow through locals
                             if why is None:
                                 for nm in names_in(a.value):
                                     for v in c01._reaching_values(m, nm):
                                         why = why or context_dependent(m, v, repo)
                             ok = why is None
                             ctx.add("R1", f"{m.qualname}::memo-slot::{slot}", ok, m.loc(a),
-                                    "" if ok else f"self.{slot} caches {ast.unparse(a.value)[:70]}, built from {why} - the invocation executing at the FIRST access. {cname} objects live for the whole process, so a later execution of the same task for another workflow (or a retry / replay of the same workflow) reuses the first executor: its workflow identity and its operation counters")
+                                    "" if ok else f"self.{slot} stores {ast.unparse(a.value)[:70]}, built from {why} - the invocation executing at that moment. {cname} objects live for the whole process, so a later execution of the same task for another workflow (or a retry / replay of the same workflow) reuses the first executor: its workflow identity and its operation counters")
             if any(d in ("cached_property", "functools.cached_property") for d in m.decorators):
                 n_slots += 1
                 why = None
